@@ -21,6 +21,7 @@ from labrea import (
     switch,
 )
 from labrea.cache import MemoryCache, NoCache
+from labrea.computation import CallbackEffect, Effect
 
 from .outcome import canon, realise
 from .probes import FUNCS, Log, pred
@@ -41,6 +42,28 @@ def _sig(names, defaults, first_positional=None):
     for n, d in zip(names, defaults):
         params.append(inspect.Parameter(n, inspect.Parameter.POSITIONAL_OR_KEYWORD, default=d))
     return inspect.Signature(params)
+
+
+class _ProbeEffect(Effect):
+    """A user-defined Effect (not a bare callback): the documented extension point of labrea.computation."""
+
+    def __init__(self, fn):
+        self.fn = fn
+
+    def transform(self, value, options=None):
+        self.fn(value)
+
+    def validate(self, options):
+        pass
+
+    def keys(self, options):
+        return set()
+
+    def explain(self, options=None):
+        return set()
+
+    def __repr__(self):
+        return "ProbeEffect()"
 
 
 class Built:
@@ -236,6 +259,8 @@ class Built:
     def _cached(self, s):
         cache = self.cache_factory("cached") if self.cache_factory else MemoryCache()
         self.caches.append(("cached", cache))
+        if s.get("form") == "decorator":
+            return cached(cache)(self.expr(s["spec"]))
         return cached(self.expr(s["spec"]), cache)
 
     def _allopts(self, s):
@@ -290,6 +315,11 @@ class Built:
             kw["callback"] = callback
         if d.get("effects"):
             kw["effects"] = [self._effect(did, i) for i, _ in enumerate(d["effects"])]
+            how = (d.get("via") or {}).get("effect_objects")
+            if how == "callback-effect":
+                kw["effects"] = [CallbackEffect(e) for e in kw["effects"]]
+            elif how == "effect-subclass":
+                kw["effects"] = [_ProbeEffect(e) for e in kw["effects"]]
         kind = d.get("cache", "memory")
         shared_factory = None
         if self.cache_factory:
@@ -321,7 +351,12 @@ class Built:
                     for n, p in sig.parameters.items()])
                 # (parameters without default must come first in a valid signature: keep order by making the
                 #  remaining ones keyword-only is not needed because lift() only reads names and defaults)
-                if via["defaults"] == "kwarg":
+                if via["defaults"] == "var_kwargs":
+                    # the supplied parameters are not in the signature at all: the body takes **rest and gets them
+                    # through defaults= (lift() passes unknown keys on only when the function accepts **kwargs)
+                    definition.__signature__ = sig.replace(parameters=[p.replace(kind=inspect.Parameter.KEYWORD_ONLY) for n, p in sig.parameters.items() if n not in supplied]
+                                                           + [inspect.Parameter("rest", inspect.Parameter.VAR_KEYWORD)])
+                if via["defaults"] in ("kwarg", "var_kwargs"):
                     kw["defaults"] = supplied
         factory = abstractdataset if d.get("abstract") else dataset
         if shared_factory is not None:
